@@ -3,6 +3,7 @@
 pub mod c01;
 pub mod c02;
 pub mod c08;
+pub mod c09;
 pub mod c12;
 pub mod c13;
 
@@ -57,6 +58,7 @@ pub fn all() -> Vec<Box<dyn Check>> {
     v.push(Box::new(c02::C02 { family: "c02_closed_loop_fault_free", faults: false, quick_runs: 3000, thorough_runs: 100_000 }));
     v.push(Box::new(c02::C02 { family: "c02_closed_loop_faults_then_quiet", faults: true, quick_runs: 1000, thorough_runs: 50_000 }));
     v.push(Box::new(c08::C08Driver));
+    v.push(Box::new(c09::C09));
     v.push(Box::new(c12::C12));
     v.push(Box::new(c13::C13Direct));
     v.push(Box::new(Reuse { property: "C13", family: "c13_monitor_on_closed_loop_faults", inner: Box::new(c02_faults()), quick_runs: 800, thorough_runs: 30_000 }));
@@ -118,6 +120,9 @@ pub fn extras(property: &str) -> EvidenceExtras {
         }
         "C08" => {
             e.rule = "each run = one generated history over the host-call alphabet (timers armed or not, BMCA, Announces from better/worse/own/unacceptable masters, Sync/Follow_Up/Delay_Resp/Pdelay traffic, TX timestamps prompt/late/lost, run-time slave-only and quality changes) on an instance with 1-3 ports in random master-only/slave-only/E2E/P2P configuration, or one generated network; role invariants are evaluated after every host call; non-trivial = at least one port state transition; distinct = distinct state-transition sequence fingerprint".into();
+        }
+        "C09" => {
+            e.rule = "each run = a slave port with a recording filter and a scripted parent; up to three Sync(/Follow_Up) exchanges and up to three Delay_Req/Delay_Resp exchanges (one-step or two-step, decoys from a non-parent and for another requester) whose constituent events are interleaved, duplicated and dropped by the tape; every measurement is compared with the formula on one exchange in exact 2^-32 ns integers; non-trivial = at least one measurement produced; distinct = distinct (event-kind sequence, measurement count) fingerprint".into();
         }
         "C12" => {
             e.rule = "each run = a generated history with a faithful host (timers armed and fired exactly as requested; lost/late TX timestamps, masters appearing/disappearing, second peer-delay responders) followed by (a) total silence or (b) a steadily announcing better master; non-trivial = phase 2 evaluated; distinct = (variant, start states, transition sequence) fingerprint".into();
